@@ -21,26 +21,26 @@ CLAIMED = {
     "C01": dict(
         engine="E1-kernel-in-the-loop",
         technique="Coq proof: reachability invariant of the closed system (library machine || scripted child || pipe kernel) by induction over steps, a natural-number measure that every step of either party decreases, and a progress theorem; tied to the code by running the real Communicator against the extracted kernel model call by call",
-        text="Theorems C01_*: for every subset of piped streams, all pipe capacities >= PIPE_BUF, every finite child program (partial reads, writes to either stream, closes, sleeps, exit), every input and every interleaving and short-I/O choice: the invariant holds, every step of parent or child strictly decreases the measure mu (so every schedule is finite, no fairness needed), and a state with the parent inside the call always has an enabled step (never blocked on one pipe while the child is blocked on another); after the child is gone the parent alone runs to its return; a stream at EOF is never polled or read again.  The proof needs WRITE_SIZE <= PIPE_BUF, which is re-derived from the source on every run.",
-        note="Trusted: Coq kernel; K (Kernel/CommK.v) models Linux pipes/poll (POLLOUT implies an atomic write of <= PIPE_BUF bytes completes; POLLHUP/POLLERR rules), validated by E1 not proved; simdrive interposers; extraction + spsim glue.  The cfg(windows) thread-based communicator is not modelled.  Exec::capture / Pipeline::capture reach the same loop through Popen::communicate_start (exercised by E2).",
+        text="Theorems C01_*: for every subset of piped streams, all pipe capacities >= PIPE_BUF, every finite child program (partial reads, writes to either stream, closes, sleeps, exit), every input and every interleaving and short-I/O choice: the invariant holds, every step of parent or child strictly decreases the measure mu (so every schedule is finite, no fairness needed), and a state with the parent inside the call always has an enabled step (never blocked on one pipe while the child is blocked on another); after the child is gone the parent alone runs to its return; a stream at EOF is never polled or read again.  The proof needs WRITE_SIZE <= PIPE_BUF, which is re-derived from the source on every run. Windows (thread-based) variant, Lib/WinComm.v: every step of helper threads, receiving thread and child decreases a measure (a read() ends after at most wmu steps under every schedule) and while a read() is in progress some party other than the clock can always move (C01_win_*).",
+        note="Trusted: Coq kernel; K (Kernel/CommK.v) models Linux pipes/poll (POLLOUT implies an atomic write of <= PIPE_BUF bytes completes; POLLHUP/POLLERR rules), validated by E1 not proved; simdrive interposers; extraction + spsim glue.  The cfg(windows) thread-based communicator is not modelled.  Exec::capture / Pipeline::capture reach the same loop through Popen::communicate_start (exercised by E2). The cfg(windows) `mod raw` is cut out of /repo's source and run on Linux on real pipes (harness/windrive); its result sequences must be among those Kernel/WinSim.v enumerates for the model (order of rendezvous is the only freedom left by the driver).  C01_win_never_stuck holds since the repair of F17.",
         design="5/C01"),
     "C02": dict(
         engine="E1-kernel-in-the-loop",
         technique="Coq proof: ghost-state invariant (returned ++ in-flight ++ in-pipe = written, per stream; got ++ in-pipe ++ unsent = input) preserved by every step, with short reads/writes as universally quantified kernel choices; kernel-in-the-loop correspondence with position-tagged bytes",
-        text="Theorems C02_*: at every reachable state, also under limits and timeouts, nothing is lost, duplicated, reordered or moved between streams; an unlimited Ok read returned exactly what the child wrote with every captured stream at EOF, stdin closed and the whole input delivered (a child reading to EOF got exactly the input); Option-ness mirrors the piped streams; the call right after the write that exhausts the input is close(stdin).",
-        note="Trusted: as C01.  The text-returning variants are compared with String::from_utf8_lossy of the model's byte result by the harness (not a theorem).",
+        text="Theorems C02_*: at every reachable state, also under limits and timeouts, nothing is lost, duplicated, reordered or moved between streams; an unlimited Ok read returned exactly what the child wrote with every captured stream at EOF, stdin closed and the whole input delivered (a child reading to EOF got exactly the input); Option-ness mirrors the piped streams; the call right after the write that exhausts the input is close(stdin). Windows thread variant: C02_win_bytes_exact / C02_win_optionness -- per stream, what earlier reads returned ++ the current read ++ the parked excess ++ the chunk a helper holds ++ the pipe = what the child wrote, at every reachable state of every interleaving.",
+        note="Trusted: as C01.  The text-returning variants are compared with String::from_utf8_lossy of the model's byte result by the harness (not a theorem). Thread variant tied as in C01.",
         design="5/C02"),
     "C03": dict(
         engine="E1-kernel-in-the-loop",
         technique="Coq proof: invariant total <= limit and the byte-exactness invariant over arbitrary histories of read() calls (GStart choices with arbitrary limits); kernel-in-the-loop correspondence with limit sequences",
-        text="Theorems C03_*: for every limit, at every instant stdout+stderr bytes of the call <= limit; reads with arbitrarily changing limits return consecutive non-overlapping pieces whose concatenation plus the pipe content is what the child wrote (nothing consumed beyond the limit, undelivered input still queued once); the size handed to read() never exceeds the allowance; an all-empty Ok result with limit >= 1 means stdin done and every captured stream at EOF.",
-        note="Trusted: as C01.",
+        text="Theorems C03_*: for every limit, at every instant stdout+stderr bytes of the call <= limit; reads with arbitrarily changing limits return consecutive non-overlapping pieces whose concatenation plus the pipe content is what the child wrote (nothing consumed beyond the limit, undelivered input still queued once); the size handed to read() never exceeds the allowance; an all-empty Ok result with limit >= 1 means stdin done and every captured stream at EOF. Windows thread variant: C03_win_limit_respected (n >= 1).",
+        note="Trusted: as C01. Thread variant tied as in C01.  With n = 0 (outside the property) the Windows grow_result drops the chunk it was handed: recorded as an observation in DESIGN.md 10.3.",
         design="5/C03"),
     "C04": dict(
         engine="E1-kernel-in-the-loop",
         technique="Coq proof (invariants over steps of the closed system: no timeout without a limit; range of the poll argument; byte invariant across timed-out calls; a time invariant relating the deadline, the instant each call was issued and K's clock, preserved by every step, which gives: TimedOut only when less than 1 ms is missing to the deadline) + kernel-in-the-loop correspondence under a virtual clock for the lateness bound",
-        text="Theorems C04_*: with no time limit a timeout is never reported, for every child and schedule (holds only since the fix of F1); with a limit, in the closed system where every call takes an arbitrary duration and a poll that finds nothing ready returns no earlier than its timeout, TimedOut is returned only when less than one millisecond is missing to the deadline = first clock reading of the call + limit (C04_timeout_truthful, C04_deadline_is_start_plus_limit); the poll() argument is within 0..i32::MAX ms for every duration; across any history of timed-out and successful reads nothing is lost or repeated and the unsent input stays queued exactly once.  PARTIAL: 'returns no later than t plus one bounded I/O step' is a monitor under the virtual clock (E1), not a theorem.",
-        note="Trusted: as C01; wall-clock meaning of the virtual clock rests on the OS honouring poll timeouts.",
+        text="Theorems C04_*: with no time limit a timeout is never reported, for every child and schedule (holds only since the fix of F1); with a limit, in the closed system where every call takes an arbitrary duration and a poll that finds nothing ready returns no earlier than its timeout, TimedOut is returned only when less than one millisecond is missing to the deadline = first clock reading of the call + limit (C04_timeout_truthful, C04_deadline_is_start_plus_limit); the poll() argument is within 0..i32::MAX ms for every duration; across any history of timed-out and successful reads nothing is lost or repeated and the unsent input stays queued exactly once.  PARTIAL: 'returns no later than t plus one bounded I/O step' is a monitor under the virtual clock (E1), not a theorem. Windows thread variant: C04_win_no_timeout_without_deadline.",
+        note="Trusted: as C01; wall-clock meaning of the virtual clock rests on the OS honouring poll timeouts. Thread variant tied as in C01.",
         design="5/C04"),
     "C05": dict(
         engine="E2-logged-real-spawns",
@@ -164,6 +164,8 @@ def main():
              "kind_free_text": "real spawns on the real kernel; every relevant libc call of parent and forked child is logged (and failed on request) by interposers, allocations in the child are logged; call sequences are compared with the Gallina model"},
             {"name": "E1-kernel-in-the-loop", "path": "harness/src/bin/simdrive.rs + ocaml/src/spsim.ml", "serves_properties": ["C01", "C02", "C03", "C04", "C09", "C10", "C11"],
              "kind_free_text": "the real library runs on fake descriptors, a virtual clock and a virtual child served live by the extracted Coq kernel model; the library model is stepped in lockstep and compared call by call"},
+            {"name": "E3w-thread-communicator", "path": "harness/build.rs (cut-out of the cfg(windows) mod raw) + harness/src/bin/windrive.rs + tools/wincomm.py", "serves_properties": ["C01", "C02", "C03", "C04"],
+             "kind_free_text": "the thread-based communicator of the Windows build, compiled from /repo's source text on Linux and run on real pipes with the driver playing the child between reads; the sequence of read() results must be one of those the model allows (Kernel/WinSim.v enumerates every rendezvous order)"},
             {"name": "E3-pure", "path": "harness/src/bin/puredrive.rs", "serves_properties": ["C06", "C15", "C17", "C19", "C20"],
              "kind_free_text": "pure differential: real function vs Gallina model evaluated by vm_compute"},
         ],
